@@ -403,6 +403,7 @@ def mutants(prog):
         if n:
             out.append((name, rel, new, expect))
 
+    sub(CAL, "xs:boolean 1 read as false (extrapolate)", r"element\.attrib\['extrapolate'\]\.lower\(\) in \('true', '1'\)", "element.attrib['extrapolate'].lower() == 'true'", "R8.spline")
     sub(CAL, "order-0 last knot special case removed", r"            if query_point == max\(x\):\n.*\n\s+return y\[-1\]\n            first_greater = \[p\.raw > query_point for p in self\.points\]\.index\(True\)\n            return y\[first_greater - 1\]",
         "            first_greater = [p.raw > query_point for p in self.points].index(True)\n            return y[first_greater - 1]", "R8.spline")
     sub(CAL, "closed range made half-open", r"if min\(x\) <= query_point <= max\(x\):", "if min(x) <= query_point < max(x):", "R8.spline")
